@@ -396,3 +396,136 @@ V('role-benign-tuple-split', 'C01', 'benign',
 V('role-benign-shortcut', 'C01', 'benign',
   [(B, "        g0, g1 = self._top_cofactor(g, z)\n        u0, u1 = self._top_cofactor(u, z)\n        v0, v1 = self._top_cofactor(v, z)\n        p = self._ite", "        if u == v:\n            return u\n        g0, g1 = self._top_cofactor(g, z)\n        u0, u1 = self._top_cofactor(u, z)\n        v0, v1 = self._top_cofactor(v, z)\n        p = self._ite")],
   None, 'extra shortcut in _ite')
+
+# --------------------------------------------------------- R-SIGN memo side
+V('memo-vcompose-store-after-flip', 'C04', 'breaking',
+  [(B, """        r = self.ite(g, q, p)
+        # memoize
+        cache[abs(f)] = r
+        # complement ?
+        if f < 0:
+            r = -r
+        return r""", """        r = self.ite(g, q, p)
+        # complement ?
+        if f < 0:
+            r = -r
+        # memoize
+        cache[abs(f)] = r
+        return r""")],
+  'R-SIGN/memo-sign/dd.bdd.BDD._vector_compose',
+  'signed result stored under the unsigned key')
+V('memo-cofactor-store-before-flip', 'C04', 'breaking',
+  [(B, """        # complement ?
+        if u < 0:
+            r = -r
+        cache[u] = r
+        return r""", """        cache[u] = r
+        # complement ?
+        if u < 0:
+            r = -r
+        return r""")],
+  'R-SIGN/memo-sign/dd.bdd.BDD._cofactor',
+  'unsigned result stored under the signed key')
+V('memo-copy-store-after-flip', ['C04', 'C11'], 'breaking',
+  [(B, """    cache[abs(u)] = r
+    # complement ?
+    if u < 0:
+        r = -r
+    return r
+
+
+def _flip(""", """    # complement ?
+    if u < 0:
+        r = -r
+    cache[abs(u)] = r
+    return r
+
+
+def _flip(""")],
+  'R-SIGN/memo-sign/dd.bdd._copy_bdd', 'copy memo polluted with sign')
+V('memo-satlen-store-after-flip', 'C10', 'breaking',
+  [(B, """        d[abs(u)] = n
+        # complement ?
+        if u < 0:
+            n = 2**(map_level['all'] - i) - n
+        return self._assert_int(n)""", """        # complement ?
+        if u < 0:
+            n = 2**(map_level['all'] - i) - n
+        d[abs(u)] = n
+        return self._assert_int(n)""")],
+  'R-SIGN/memo-sign/dd.bdd.BDD._sat_len', 'count memo polluted with sign')
+
+# ------------------------------------------------------- R-MEMO / R-INVAL
+V('memo-compose-key', 'C04', 'breaking',
+  [(B, """        if (f, g) in cache:
+            return cache[(f, g)]""", """        if f in cache:
+            return cache[f]"""),
+   (B, "        cache[(f, g)] = r\n        return r", "        cache[f] = r\n        return r")],
+  'R-MEMO/key-incomplete/dd.bdd.BDD._compose', 'g dropped from the key')
+V('memo-image-key', 'C13', 'breaking',
+  [(B, "    t = (u, v)\n    w = cache.get(t)", "    t = u\n    w = cache.get(t)")],
+  'R-MEMO/key-incomplete/dd.bdd._image', 'v dropped from the key')
+V('memo-ite-key', ['C01'], 'breaking',
+  [(B, "        r = (g, u, v)\n        w = self._ite_table.get(r)", "        r = (g, u)\n        w = self._ite_table.get(r)")],
+  'R-MEMO/key-incomplete/dd.bdd.BDD._ite', 'else operand dropped from key')
+V('memo-key-mismatch', 'C12', 'breaking',
+  [(B, "        umap[abs(u)] = r\n        if u < 0:", "        umap[u] = r\n        if u < 0:")],
+  'R-MEMO/key-mismatch/dd.bdd.BDD._load', 'written under the signed key')
+V('memo-quantify-persistent', 'C03', 'breaking',
+  [(B, """        qvars = self._map_to_level(set(qvars))
+        cache = dict()
+        ordvar = sorted(qvars)""", """        qvars = self._map_to_level(set(qvars))
+        cache = self._qcache
+        ordvar = sorted(qvars)"""),
+   (B, "        self._ite_table: dict[", "        self._qcache = dict()\n        self._ite_table: dict[")],
+  'R-MEMO/stale-memo/dd.bdd.BDD.quantify', 'memo kept on the manager')
+V('memo-cofactor-unsorted', 'C04', 'breaking',
+  [(B, "        ordvar = sorted(level_values)", "        ordvar = list(level_values)")],
+  'R-MEMO/unsorted-cursor/dd.bdd.BDD.cofactor', 'cursor over unsorted levels')
+V('memo-mutable-default', 'C10', 'breaking',
+  [(B, """            d:
+                dict[
+                    _Node,
+                    _Nat]
+            ) -> _Nat:
+        \"\"\"Recurse to compute the number of models.\"\"\"""", """            d:
+                dict[
+                    _Node,
+                    _Nat]={}
+            ) -> _Nat:
+        \"\"\"Recurse to compute the number of models.\"\"\""""),
+   (B, """        r = self._sat_len(
+            u, map_level,
+            d=dict())""", """        r = self._sat_len(
+            u, map_level)""")],
+  'R-MEMO/', 'count memo shared between calls through a default argument')
+V('inval-collect', ['C01', 'C06'], 'breaking',
+  [(B, """                unused.add(w)
+        self._ite_table = dict()
+        m = len(self)""", """                unused.add(w)
+        m = len(self)""")],
+  'R-INVAL/no-reset/dd.bdd.BDD.collect_garbage', 'no reset after collection')
+V('inval-collect-conditional', ['C01', 'C06'], 'breaking',
+  [(B, """                unused.add(w)
+        self._ite_table = dict()
+        m = len(self)""", """                unused.add(w)
+        if n > len(self) + 10:
+            self._ite_table = dict()
+        m = len(self)""")],
+  'R-INVAL/no-reset/dd.bdd.BDD.collect_garbage', 'reset only for big sweeps')
+V('inval-undeclare', ['C01', 'C14'], 'breaking',
+  [(B, """        # clear cache
+        self._ite_table = dict()
+        return rm_vars""", """        return rm_vars""")],
+  'R-INVAL/no-reset/dd.bdd.BDD.undeclare_vars', 'levels renumbered, cache kept')
+V('inval-mdd', 'C15', 'breaking',
+  [('dd/mdd.py', """                    unused.add(abs(v))
+        self._ite_table = dict()""", """                    unused.add(abs(v))""")],
+  'R-INVAL/no-reset/dd.mdd.MDD.collect_garbage', 'MDD cache kept')
+V('inval-benign-clear', ['C01', 'C06'], 'benign',
+  [(B, """                unused.add(w)
+        self._ite_table = dict()
+        m = len(self)""", """                unused.add(w)
+        self._ite_table.clear()
+        m = len(self)""")],
+  None, 'clear() instead of a new dict')
